@@ -11,7 +11,7 @@ from pycaption import DFXPReader, MicroDVDReader, SAMIReader, SRTReader, WebVTTR
 
 PROPERTY = "C01"
 RULE = ("documents are built by independent serialisers from generated timestamp spellings "
-        "(fields, not instants): SRT HH+:MM:SS[,mmm]; WebVTT [HH+:]MM:SS.mmm with ids, "
+        "(fields, not instants), lines ended by LF, CRLF or bare CR: SRT HH+:MM:SS[,mmm]; WebVTT [HH+:]MM:SS.mmm with ids, "
         "settings, NOTE blocks, empty cues and reader options (time shift of either sign, "
         "ignore_timing_errors, lang); DFXP clock time with 0-9 fraction digits or :FF frames, "
         "offset times n[.d](h|m|s|ms|f), begin+end and begin+dur, empty <p>, 1-2 divs; SAMI "
@@ -76,7 +76,7 @@ def srt_strategy(tier):
         pairs = _pairs_sorted(draw, T.clock_ms(999, frac_optional=True), n)
         cues = [{"a": a, "b": b, "nl": draw(st.integers(1, 2))} for a, b in pairs]
         return {"fmt": "srt", "reuse": draw(st.integers(0, 3)) == 0, "cues": cues, "lang": draw(st.sampled_from([None, "en-US", "fr"])),
-                "eol": draw(st.sampled_from(["\n", "\n", "\r\n"])),
+                "eol": draw(st.sampled_from(["\n", "\n", "\r\n", "\r"])),
                 "trail": draw(st.integers(0, 3)),
                 "between": draw(st.lists(st.sampled_from([1, 1, 1, 2, 3]), min_size=1, max_size=4))}
     return build()
@@ -131,7 +131,9 @@ def webvtt_strategy(tier):
         return {"fmt": "webvtt", "reuse": draw(st.integers(0, 3)) == 0, "cues": cues, "shift": shift,
                 "ignore": draw(st.booleans()), "lang": draw(st.sampled_from([None, "en-US", "de"])),
                 "notes": [[k, v] for k, v in notes.items()],
-                "header": draw(st.sampled_from(["WEBVTT", "WEBVTT", "WEBVTT - title"]))}
+                "header": draw(st.sampled_from(["WEBVTT", "WEBVTT", "WEBVTT - title"])),
+                "eol": draw(st.sampled_from(["\n", "\n", "\r\n", "\r"])),
+                "tail": draw(st.sampled_from([0, 0, 1, 2, -1]))}
     return build()
 
 
@@ -144,7 +146,15 @@ def check_webvtt(case, rec):
     if rec.is_open("webvtt-empty-cue-swallows-next") and _empty_then_block(case):
         rec.excluded_known("webvtt-empty-cue-swallows-next")
         return
-    doc = S.webvtt_doc(cues, case["header"], {k: v for k, v in case["notes"]})
+    eol = case.get("eol", "\n")
+    doc = S.webvtt_doc(cues, case["header"], {k: v for k, v in case["notes"]}, eol=eol)
+    # the document ends right after the last payload line, or with 1-3 line terminators
+    tail = case.get("tail", 0)
+    if tail < 0:
+        if not case["cues"][-1]["empty"]:
+            doc = doc[:-len(eol)]
+    else:
+        doc += eol * tail
     if all(c["empty"] for c in case["cues"]):
         return
     kw = {}
@@ -364,7 +374,8 @@ def microdvd_strategy(tier):
         cues = [{"a": fr[2 * i], "b": fr[2 * i + 1], "empty": draw(st.integers(0, 7)) == 0}
                 for i in range(n)]
         return {"fmt": "microdvd", "reuse": draw(st.integers(0, 3)) == 0, "fps": fps, "cues": cues,
-                "lang": draw(st.sampled_from([None, "en-US"]))}
+                "lang": draw(st.sampled_from([None, "en-US"])),
+                "eol": draw(st.sampled_from(["\n", "\n", "\r\n", "\r"]))}
     return build()
 
 
@@ -385,7 +396,7 @@ def check_microdvd(case, rec):
             exp.append((_mdvd_expected(c["a"], fps or "25"), _mdvd_expected(c["b"], fps or "25")))
     if not exp:
         return
-    doc = S.microdvd_doc(lines, fps)
+    doc = S.microdvd_doc(lines, fps, eol=case.get("eol", "\n"))
     with must("MicroDVDReader.read"):
         r = _reader(MicroDVDReader, "microdvd", case, rec)
         cs = r.read(doc, lang=case["lang"]) if case["lang"] else r.read(doc)
